@@ -347,3 +347,5 @@ def run(ck: Check, repo: Repo) -> None:
     from . import c03
     c03.rule_path_bases(ck, repo, "R8")
     c03.rule_vcs_output_verbatim(ck, repo, "R9")
+    from . import c18 as _c18
+    _c18.rule_document_name(ck, repo, "R10")
